@@ -298,6 +298,62 @@ class DataFrameToSymbols(FunctionContract):
 CONTRACTS.append(DataFrameToSymbols())
 
 
+class SymbolsToDataFrame(FunctionContract):
+    """symbols_to_dataframe(symbols): pandas.DataFrame is handed exactly one record per symbol, in list order, each record mapping the six
+    Symbol fields (in field order) to that symbol's own field values - nothing dropped, reordered, converted or added; no index / columns /
+    dtype argument; the symbol list is untouched. Symbol contents are symbolic (0-3 symbols, kinds enumerated)."""
+    qualname = 'fsic.tools.symbols_to_dataframe'
+    props = ('C19',)
+
+    def scenarios(self):
+        return ['n0', 'n1:ENDOGENOUS', 'n1:FUNCTION', 'n1:VERBATIM', 'n2:ENDOGENOUS/EXOGENOUS', 'n2:VERBATIM/PARAMETER',
+                'n3:ENDOGENOUS/ERROR/FUNCTION', 'n3:EXOGENOUS/ENDOGENOUS/VERBATIM']
+
+    def setup(self, interp, scenario):
+        import pandas as pd
+        from fsic.parser import Type
+        from contracts.c03_symbols import symbolic_symbol
+        ctx = interp.ctx
+        kinds = [] if scenario == 'n0' else [Type[k] for k in scenario.split(':')[1].split('/')]
+        syms = [symbolic_symbol(ctx, i, k) for i, k in enumerate(kinds)]
+        e = {'syms': syms, 'fields': [dict(s_.fields) for s_ in syms], 'inputs': {}}
+        ctx.force_models = {pd.DataFrame}
+        return Call([list(syms)], {}, entry=e)
+
+    def post(self, interp, scenario, call, out):
+        from fsic.parser import Symbol
+        ctx = interp.ctx
+        e = call.entry
+        if out.kind == 'raise':
+            ctx.prove(False, f'does_not_raise:{getattr(exc_class(out.exc), "__name__", "?")}@{getattr(out.exc, "origin", "")}', 'raises')
+            return
+        df = out.value
+        recs = getattr(df, 'records', None)
+        ok = isinstance(df, SDataFrame) and recs is not None
+        ctx.prove(z3.BoolVal(ok), 'returns_a_table_built_by_pandas.DataFrame_from_a_list_of_records', 'ensures')
+        if not ok:
+            return
+        now = call.args[0]
+        ctx.prove(z3.BoolVal(isinstance(now, list) and len(now) == len(e['syms']) and all(a is b for a, b in zip(now, e['syms']))
+                             and all(dict(s_.fields) == f and all(s_.fields[k] is f[k] for k in f) for s_, f in zip(e['syms'], e['fields']))),
+                  'the_symbol_list_and_its_symbols_are_not_modified', 'frame')
+        ctx.prove(z3.BoolVal(len(recs) == len(e['syms'])), 'one_row_per_symbol_none_skipped_none_added', 'ensures', note=f'{len(recs)} records for {len(e["syms"])} symbols')
+        if len(recs) != len(e['syms']):
+            return
+        for i, (r, f) in enumerate(zip(recs, e['fields'])):
+            ctx.prove(z3.BoolVal(list(r) == list(Symbol._fields)), f'row_{i}_has_exactly_the_six_symbol_fields_in_field_order', 'ensures', note=str(list(r)))
+            same = list(r) == list(Symbol._fields) and all(r[k] is f[k] or (not V.is_sym(r[k]) and not V.is_sym(f[k]) and type(r[k]) is type(f[k]) and r[k] == f[k])
+                                                           for k in Symbol._fields)
+            ctx.prove(z3.BoolVal(same), f'row_{i}_holds_the_field_values_of_symbol_{i}_(list_order_kept_nothing_converted)', 'ensures')
+        if any(f['equation'] is None for f in e['fields']):
+            ctx.cover('symbol-with-None-fields')
+        if len(recs) >= 2:
+            ctx.cover('several-symbols')
+
+
+CONTRACTS.append(SymbolsToDataFrame())
+
+
 class ExportForwarder(FunctionContract):
     """to_dataframe / to_dataframes of models and linkers: one call of the export function of fsic.tools with the object itself and the three
     options exactly as given (whatever combination), and its result handed back."""
